@@ -98,8 +98,13 @@ def run(prop, tier, replay=None):
     try:
         import clientlib
         if hasattr(clientlib, "run_client_half"):
-            cv, client_cov = clientlib.run_client_half("C25", tier)
-            violations += cv
+            try:
+                cv, client_cov = clientlib.run_client_half("C25", tier)
+                violations += cv
+            except vlib.Inconclusive as ex:
+                # a model gap of the client-library spec is not a crash; the crash oracle of the
+                # client half is then reported as not evaluated in the evidence
+                client_cov = {"not_evaluated": str(ex)[:300]}
     except ImportError:
         pass
     # consume the surviving traces with the trace spec (totality of the model on what the code was given)
